@@ -316,6 +316,27 @@ pub fn programs(thorough: bool) -> Vec<(String, Option<Query>)> {
             }
         }
     }
+    // keys the rules spell in another letter case than the document (found through the case conversions): the point reached
+    // is the one of the query spelled like the document
+    for lower in [vec![key("a"), key("zz")], vec![key("a"), key("b"), key("zz")], vec![key("a"), key("a"), key("zz")], vec![key("a"), Part::All, key("zz")], vec![key("b"), key("zz")], vec![key("a"), key("zz"), key("b")], vec![Part::This, key("a"), key("zz")], vec![key("a"), Part::Idx(0), key("b"), key("zz")]] {
+        for upto in 1..=lower.len() {
+            // the first `upto` keys in upper case
+            let mut nkeys = 0;
+            let upper: Query = lower.iter().map(|p| match p {
+                Part::Key(k) if k != "zz" && nkeys < upto => {
+                    nkeys += 1;
+                    key(&k.to_uppercase())
+                }
+                other => other.clone(),
+            }).collect();
+            if upper == lower {
+                continue;
+            }
+            for c in [un(upper.clone(), UnOp::Exists, false), bin(upper.clone(), BinOp::Eq, false, i(1))] {
+                out.push((print_file(&file1(rule("r", vec![vec![c]]))), Some(lower.clone())));
+            }
+        }
+    }
     // the document root itself
     for c in [bin(vec![Part::This], BinOp::Eq, false, i(1)), un(vec![Part::This], UnOp::IsList, false), un(vec![Part::This], UnOp::IsStruct, false), bin(vec![Part::This, Part::All], BinOp::Eq, false, i(1)), bin(vec![Part::This], BinOp::In, false, l(vec![i(5), s("zz")]))] {
         out.push((print_file(&file1(rule("r", vec![vec![c]]))), None));
